@@ -147,7 +147,7 @@ def plan_jobs(seed, tier):
     if tier == 'quick':
         shape = [(1, 4), (2, 16), (4, 26), (8, 24), (16, 18), (32, 10)]
     else:
-        shape = [(1, 40), (2, 300), (3, 300), (4, 400), (8, 400), (16, 300), (32, 260)]
+        shape = [(1, 20), (2, 130), (3, 100), (4, 150), (8, 160), (16, 140), (32, 100)]
     for nthreads, count in shape:
         for _ in range(count):
             jobs.append(dict(id=len(jobs) + 1, seed=rnd.randrange(1 << 30), nthreads=nthreads))
@@ -234,8 +234,27 @@ def run_job(job):
         with dlock:
             diffs.append(dict(signature=sig, what=what, witness=dict(w, job=dict(job))))
 
+    route = threading.local()
+
+    class Router:
+        """Installed as api._TRANSPILER for the duration of the job.  Requests normally go to the traced
+        transpiler; while a *reference* (fresh conversion) is being observed, the conversions of its callees go to
+        fresh, cache-less transpilers as well, so that the reference never depends on the cache under test."""
+
+        def transform(self, obj, user_context):
+            if getattr(route, 'fresh', False):
+                return api.PyToPy().transform(obj, user_context)
+            return T.transform(obj, user_context)
+
     def reference(fn, o):
         return api.PyToPy().transform(fn, conv.ProgramContext(options=o))[0]
+
+    def observe_reference(ref):
+        route.fresh = True
+        try:
+            return spy.observe(ref)
+        finally:
+            route.fresh = False
 
     def compare(fn, oi, g, slot, entry, x=None, val=None, memo=None, fac=None):
         """g (and/or the value obtained through a calling entry point) against a fresh conversion of fn.
@@ -250,7 +269,7 @@ def run_job(job):
                 ref = reference(fn, opts[oi])
             except Exception as e:  # noqa: BLE001
                 raise common.MachineryError('C10 pool function %s does not convert on a fresh transpiler: %r' % (slot, e))
-            b_ref, s_ref = spy.observe(ref)
+            b_ref, s_ref = observe_reference(ref)
             b_org = poolmod.behaviour(fn)
             if b_ref != b_org:
                 raise common.MachineryError('C10 pool function %s: fresh conversion and original disagree %r / %r' % (
@@ -455,7 +474,7 @@ def run_job(job):
 
     hung = False
     spy.install()
-    api._TRANSPILER = T
+    api._TRANSPILER = Router()
     try:
         probe.register_thread(checker_tid)
         job_slots = rnd.sample(SLOTS, 5)
